@@ -112,6 +112,11 @@ func buildC03World(r *rt.Rand, gs *gateSet) (*World, []string) {
 	np := r.Range(1, 3)
 	var desc []string
 	shared := NewRecNode(w.Log, "fs", eventlogger.NodeTypeFilter, r.Uint64(), [4]int{3, 1, 1, 1})
+	shared.OnProcess = func(ctx context.Context, n *RecNode, e *eventlogger.Event, ent *Entry) {
+		if ch := gs.held(ent.Prov); ch != nil {
+			<-ch
+		}
+	}
 	w.B.RegisterNode("fs", shared)
 	w.M.RegisterNode("fs", shared, "")
 	for p := 0; p < np; p++ {
@@ -462,7 +467,12 @@ func c03Overlap(run *rt.Run, w *World, gs *gateSet, cr *rt.Rand, desc []string) 
 	wit := func() any {
 		return map[string]any{"config": desc, "scenario": "overlap: Send B parked in a node; threshold setter; Send A", "B": b.obs.SendID}
 	}
-	base := countSendGoroutines()
+	base := map[string]bool{}
+	for _, g := range rt.Goroutines() {
+		if g.Has("eventlogger.(*graph).process") || g.Has("eventlogger.(*graph).doProcess") {
+			base[g.ID] = true
+		}
+	}
 	// a threshold setter while B is in flight
 	setDone := make(chan struct{})
 	go func() {
@@ -484,17 +494,31 @@ func c03Overlap(run *rt.Run, w *World, gs *gateSet, cr *rt.Rand, desc []string) 
 				break
 			}
 		}
-		// A's goroutines must be gone although B's are still there
-		dl := time.Now().Add(3 * time.Second)
-		n := countSendGoroutines()
-		for n > base && time.Now().Before(dl) {
-			time.Sleep(200 * time.Microsecond)
-			n = countSendGoroutines()
+		// A's goroutines must be gone although B's are still there: goroutines inside graph.process /
+		// doProcess that did not exist before A started
+		extra := func() []rt.Goroutine {
+			var out []rt.Goroutine
+			for _, g := range rt.Goroutines() {
+				if (g.Has("eventlogger.(*graph).process") || g.Has("eventlogger.(*graph).doProcess")) && !base[g.ID] {
+					out = append(out, g)
+				}
+			}
+			return out
 		}
-		if n > base {
-			time.Sleep(200 * time.Millisecond)
-			if n2 := countSendGoroutines(); n2 > base {
-				run.Violation("goroutine-leak:overlap", fmt.Sprintf("after Send A returned and all its node invocations returned, %d goroutine(s) more than before A remain inside graph.process/doProcess (they wait for another Send's nodes)", n2-base), wit())
+		dl := time.Now().Add(5 * time.Second)
+		left := extra()
+		for len(left) > 0 && time.Now().Before(dl) {
+			time.Sleep(200 * time.Microsecond)
+			left = extra()
+		}
+		if len(left) > 0 {
+			time.Sleep(300 * time.Millisecond)
+			left2 := extra()
+			if len(left2) > 0 && left2[0].Parked() {
+				run.Violation("goroutine-leak:overlap:"+left2[0].State+"@"+libFrames(left2[0]), fmt.Sprintf("after Send A returned and all its node invocations returned, %d goroutine(s) it started remain parked inside graph.process/doProcess (they wait for another Send's nodes)", len(left2)),
+					map[string]any{"case": wit(), "goroutine": left2[0].Raw})
+			} else if len(left2) > 0 {
+				run.Inconclusive("overlap: a goroutine of Send A is still runnable at the deadline")
 			}
 		}
 		run.Add("overlap_sends_returned_while_other_in_flight", 1)
